@@ -45,7 +45,43 @@ OPS = ['select', 'select', 'select', 'iselect', 'select_one', 'match', 'match', 
 def plan(tier, seed):
     n = 96 if tier == 'quick' else 2400
     per = 80 if tier == 'quick' else 160
-    return [{'seed': seed * 424243 + i, 'n': per} for i in range(n)]
+    return [{'kind': 'suite'}] + [{'seed': seed * 424243 + i, 'n': per} for i in range(n)]
+
+
+def suite_replay():
+    """The repository's own tests with the recorder and the reference-free monitors on (tools/suite_replay_plugin.py)."""
+    import json
+    import os
+    import subprocess
+    import tempfile
+    from vlib import env
+    res = {'evals': 0, 'sigs': [], 'viol': [], 'samples': [], 'counters': {}}
+    tests = os.path.join(env.REPO, 'tests')
+    if not os.path.isdir(tests):
+        res['counters']['suite_replay_absent'] = 1
+        return res
+    fd, out = tempfile.mkstemp(suffix='.json')
+    os.close(fd)
+    e = dict(os.environ, SOUPSIEVE_VERIF='1', SOUPSIEVE_VERIF_OUT=out, PYTHONPATH=os.path.join(env.VERIF, 'tools') + os.pathsep + env.REPO)
+    try:
+        r = subprocess.run([env.PYTHON, '-m', 'pytest', '-q', '-p', 'no:cacheprovider', '-p', 'suite_replay_plugin', '-x', tests],
+                           cwd=env.REPO, env=e, capture_output=True, text=True, timeout=900)
+        st = json.load(open(out)) if os.path.getsize(out) else {}
+    except Exception as ex:  # noqa: BLE001
+        res['counters']['suite_replay_failed'] = 1
+        res['notes'] = {'suite_replay': [repr(ex)[:200]]}
+        return res
+    finally:
+        os.unlink(out)
+    res['evals'] = st.get('calls', 0)
+    res['counters'] = {'suite_calls_shadowed': st.get('calls', 0), 'suite_select_vs_match': st.get('select_vs_match', 0),
+                       'suite_exit_status': st.get('exitstatus', r.returncode)}
+    for v in st.get('violations', [])[:6]:
+        res['counters']['VIOL'] = res['counters'].get('VIOL', 0) + 1
+        res['viol'].append({'what': 'suite replay: monitor %s fired for pattern %r %s' % (v['monitor'], v.get('pattern'), v.get('markup', '')[:200]),
+                            'selector': v.get('pattern'), 'suite': True, 'class': sig('suite', v['monitor'])})
+    res['samples'] = [{'suite_replay': {k: v for k, v in st.items() if k != 'violations'}}]
+    return res
 
 
 def gen_doc(rng):
@@ -179,6 +215,8 @@ def gen_steps(rng, n_els):
 
 
 def run_unit(u):
+    if u.get('kind') == 'suite':
+        return suite_replay()
     import soupsieve as sv
     rng = random.Random(u['seed'])
     res = {'evals': 0, 'sigs': [], 'viol': [], 'samples': [], 'counters': {}}
@@ -231,6 +269,9 @@ def run_unit(u):
 
 def replay(w):
     import soupsieve as sv
+    if w.get('suite'):
+        r = suite_replay()
+        return dict(w, status_now=r['viol'][0]['what']) if r['viol'] else None
     tops = cases.rebuild(w)
     trap = monitors.MutatorTrap()
     trap.install()
